@@ -21,7 +21,7 @@ mod c04;
 mod c08;
 
 fn main() {
-    std::panic::set_hook(Box::new(|_| {}));
+    common::install_panic_note_hook();
     let args = common::parse_args();
     match args.prop.as_str() {
         "C14" => c14::run(&args),
